@@ -13,7 +13,8 @@ PROP_FILE = "Properties/C16.v"
 CORPUS = core.VERIF / "harness" / "corpus" / "C16"
 
 TRUSTED = [
-    "translator/c16.py (get_dtype band chain -> Gen_C16.src_dtype_chain; fails closed on any other shape)",
+    "translator/c16.py (get_dtype band chain -> Gen_C16.src_dtype_chain; the three detector-level models -> "
+    "Gen_C16.src_simple_wiring / src_sar_wiring / src_sar0_wiring; fails closed on any other shape)",
     "correspondence harness: harness/props/c16.py generators, harness/drivers/c16.py, float.hex() -> (m, e) literals",
     "modelled, not verified: numpy elementwise float64 arithmetic = IEEE-754 round-to-nearest-even (Flocq "
     "BinarySingleNaN), np.clip = minimum(maximum()), np.minimum propagates NaN, np.trunc = round toward zero, "
@@ -144,8 +145,17 @@ def gen_case(r, kind, bits, rng_v, dense=False, frame=None):
                 seen_b.add(b)
                 xs2.append(v)
         xs = xs2
-    return dict(kind=kind, bits=bits, vmin=hexf(vmin), vmax=hexf(vmax), xs=[hexf(x) for x in xs],
+    case = dict(kind=kind, bits=bits, vmin=hexf(vmin), vmax=hexf(vmax), xs=[hexf(x) for x in xs],
                 path=r.choice(["model", "func"]), frame=frame)
+    if kind == "simple" and r.random() < 0.2:
+        # an explicit output type (data_type= of the model / dtype= of the function) at least as wide as the
+        # one get_dtype chooses: everything the property says must still hold
+        need = 8 if bits <= 8 else 16 if bits <= 16 else 32 if bits <= 32 else 64
+        case["data_type"] = r.choice([w for w in (8, 16, 32, 64) if w >= need])
+    if kind == "sar0" and case["path"] == "model" and r.random() < 0.12:
+        # the model refuses tuples that do not have adc_bit_resolution elements (ValueError)
+        case[r.choice(["n_strengths", "n_noises"])] = bits + r.choice([-1, 1])
+    return case
 
 
 def load_corpus():
@@ -153,7 +163,7 @@ def load_corpus():
     out = []
     for f in sorted(CORPUS.glob("*.json")):
         c = json.loads(f.read_text())
-        out.append({k: c[k] for k in ("kind", "bits", "vmin", "vmax", "xs", "path", "frame")})
+        out.append({k: c[k] for k in CASE_KEYS if k in c})
     return out
 
 
@@ -200,6 +210,7 @@ def exhaustive_cases(ctx: Ctx, max_bits: int):
 # ------------------------------------------------------------------------------------------ Coq emission
 
 KIND = {"simple": "Simple", "sar": "Sar", "sar0": "Sar0"}
+CASE_KEYS = ("kind", "bits", "vmin", "vmax", "xs", "path", "frame", "data_type", "n_strengths", "n_noises")
 
 
 def emit_case(c, obs) -> str:
@@ -210,7 +221,10 @@ def emit_case(c, obs) -> str:
     xs = core.clist(bf(float.fromhex(h)) for h in c["xs"])
     tw = "None" if "twin" not in obs else f"(Some {core.clist(str(v) for v in obs['twin'])})"
     return (f"{{| kind := {KIND[c['kind']]}; bits := {c['bits']}; vmin := {bf(float.fromhex(c['vmin']))}; "
-            f"vmax := {bf(float.fromhex(c['vmax']))}; xs := {xs}; observed := {o}; twin := {tw} |}}")
+            f"vmax := {bf(float.fromhex(c['vmax']))}; xs := {xs}; observed := {o}; twin := {tw}; "
+            f"via_model := {core.cbool(c.get('path', 'model') == 'model')}; "
+            f"data_type := {'None' if c.get('data_type') is None else '(Some %d)' % c['data_type']}; "
+            f"n_strengths := {c.get('n_strengths', c['bits'])}; n_noises := {c.get('n_noises', c['bits'])} |}}")
 
 
 def emit_file(pairs) -> str:
@@ -219,7 +233,7 @@ def emit_file(pairs) -> str:
             "From PyxelV Require Import Lib.B64 Model.Adc.\nFrom PyxelGen Require Import Gen_C16.\n"
             "Import ListNotations.\nOpen Scope Z_scope.\n"
             f"Definition cases : list adc_case := [\n  {body}\n].\n"
-            "Eval vm_compute in mismatches src_dtype_chain cases.\n"
+            "Eval vm_compute in mismatches src_dtype_chain src_simple_wiring src_sar_wiring src_sar0_wiring cases.\n"
             "Eval vm_compute in violations cases.\n")
 
 
@@ -319,6 +333,10 @@ def correspondence(ctx: Ctx, cases, tag="c") -> tuple[list, list]:
                  "33..53" if c["bits"] <= 53 else "54..64")
         ctx.dist("path", c.get("path"))
         ctx.dist("frame", c.get("frame", "float64"))
+        ctx.dist("data_type", c.get("data_type"))
+        if c["kind"] == "sar0" and c.get("path") == "model":
+            ctx.dist("noisy_tuple_lengths", "wrong" if (c.get("n_strengths", c["bits"]) != c["bits"]
+                                                        or c.get("n_noises", c["bits"]) != c["bits"]) else "right")
     return mism, viol, pairs
 
 
@@ -337,7 +355,7 @@ def run(ctx: Ctx):
     try:
         gen["Gen_C16.v"] = tr.translate(ctx.repo)
     except core.TranslationError as ex:
-        ctx.broken.append(Broken("translation", "get_dtype (pyxel/util/misc.py)", str(ex)))
+        ctx.broken.append(Broken("translation", "get_dtype (pyxel/util/misc.py) / detector-level converter models", str(ex)))
         ctx.log("translation failed:", ex)
         # keep going with the last accepted shape so that the search still has a model to run
         gen["Gen_C16.v"] = tr.FALLBACK
@@ -424,7 +442,7 @@ def replay(ctx: Ctx, rp: dict) -> int:
         print(f"replay names a {rp.get('kind')} that no longer checks: {rp.get('no_longer_checks')}")
         print(rp.get("detail", ""))
         return 1
-    case = {k: case[k] for k in ("kind", "bits", "vmin", "vmax", "xs", "path", "frame") if k in case}
+    case = {k: case[k] for k in CASE_KEYS if k in case}
     obs = core.run_driver(ctx, "c16", [case], workers=1)[0]
     print("case:", case)
     print("implementation now returns:", obs)
